@@ -1,4 +1,4 @@
-CONSTANTS Family = "small" MaxVar = 10 MaxRuns = 3 FramesSet = {1,2} BpsSet = {1,2} SppSet = {1,3}
+CONSTANTS Family = "small" MaxVar = 6 MaxRuns = 3 FramesSet = {1,2} BpsSet = {1,2} SppSet = {1,3}
 SPECIFICATION Spec
 INVARIANTS Emit
 CHECK_DEADLOCK FALSE
